@@ -816,6 +816,7 @@ pub fn run_op(r: &Req, b: &Built) -> Result<String, String> {
             let sched = r.nums("sched")?;
             let repl = if r.kv.contains_key("repl") { r.list("repl")? } else { vec![] };
             aho_corasick::verif::set_stream_spare(None);
+            STREAM_ITEM_CAP.with(|c| c.set(data.len() + 3));
             let mk = |data: &Vec<u8>| SchedReader {
                 data: data.clone(),
                 pos: 0,
@@ -959,6 +960,7 @@ pub fn run_op(r: &Req, b: &Built) -> Result<String, String> {
                 let sched = r.nums("sched")?;
                 let spare = r.kv.get("spare").and_then(|x| x.parse::<usize>().ok());
                 aho_corasick::verif::set_stream_spare(spare);
+                STREAM_ITEM_CAP.with(|c| c.set(hay.len() + 3));
                 let out = with_srch(b, &mut |s| {
                     let mut rdr = SchedReader {
                         data: hay.clone(),
@@ -1264,6 +1266,8 @@ pub fn gate(r: &Req, b: &Built) -> Result<String, String> {
 }
 
 pub fn run(r: &Req) -> Vec<(String, String)> {
+    // (per-request state of the harness itself must never leak into the next request)
+    STREAM_ITEM_CAP.with(|c| c.set(usize::MAX));
     // `topfind` / `topiter` / `topismatch` / `topovl`: the same real methods, compared with the capstone model
     let stripped;
     let r = if matches!(r.op.as_str(), "topfind" | "topiter" | "topismatch" | "topovl") {
